@@ -65,3 +65,20 @@ Proof.
   - apply q_evap_inside.
 Qed.
 Print Assumptions C20_evaporation_only_inside_the_window.
+
+(* the same for the 2D model (per-column fluxes) *)
+From Coq Require Import List.
+From Snow Require Import Sn2D Sn2DProofs.
+Theorem C20_2D_evaporation_only_inside_the_window :
+  forall (P : @p2d R) Nz Nr rr ip g w Tsh t ts td dHe (fl : list R),
+  (t <= ts * 3600 \/ (ts + td) * 3600 <= t ->
+     qe2 Rops true t ts td dHe fl = map (fun _ => 0) fl
+     /\ cool_step2_t Rops P Nz Nr rr true t ts td dHe g Tsh fl = cool_step2_t Rops P Nz Nr rr false t ts td dHe g Tsh fl
+     /\ solid_step2_t Rops P Nz Nr rr ip true t ts td dHe g w Tsh fl = solid_step2_t Rops P Nz Nr rr ip false t ts td dHe g w Tsh fl)
+  /\ (ts * 3600 < t < (ts + td) * 3600 -> qe2 Rops true t ts td dHe fl = map (fun f => - f * dHe) fl).
+Proof.
+  intros. split.
+  - intros Ho. split; [apply qe2_outside; tauto|]. apply visf2_step_equals_shelf_step_outside_window. exact Ho.
+  - apply qe2_inside.
+Qed.
+Print Assumptions C20_2D_evaporation_only_inside_the_window.
